@@ -35,6 +35,8 @@ static bool emitLines = true;
 static bool checkOverflow = false;
 static std::string ovfPrefix = "/repo/";
 static bool checkStaticWrites = false;
+static bool typedNew = true;
+static unsigned typedNewCount = 0;
 static unsigned staticWriteChecks = 0, overflowChecks = 0;
 static std::vector<const llvm::GlobalVariable*> staticObjects;
 static std::vector<std::string> layoutAsserts;
@@ -593,6 +595,104 @@ static std::vector<const Function*> dispatchCandidates(const CallInst* call)
     return r;
 }
 
+static bool typedMem = true;
+// the struct/array type T such that p (bitcasts stripped) is a T* and len == sizeof(T); nullptr otherwise
+static Type* typedPointee(const Value* p, const Value* len)
+{
+    auto* cl = dyn_cast<ConstantInt>(len);
+    if (!cl)
+        return nullptr;
+    const Value* base = p->stripPointerCasts();
+    auto* pt = dyn_cast<PointerType>(base->getType());
+    if (!pt)
+        return nullptr;
+    Type* et = pt->getNonOpaquePointerElementType();
+    if (!(et->isStructTy() || et->isArrayTy()) || !et->isSized())
+        return nullptr;
+    if (auto* st = dyn_cast<StructType>(et))
+        if (st->isOpaque())
+            return nullptr;
+    if (DL->getTypeAllocSize(et) != cl->getZExtValue())
+        return nullptr;
+    return et;
+}
+
+// Emit field-wise zeroing (src empty) or copying (src = lvalue expression) of the first `len` bytes of an lvalue of
+// type t. Returns false if the byte range does not end on a member boundary (caller falls back to memset/memcpy).
+static bool emitPrefix(Type* t, const std::string& dst, const std::string& src, uint64_t len, std::ostream& os)
+{
+    if (len == 0)
+        return true;
+    if (DL->getTypeAllocSize(t) == len || (DL->getTypeStoreSize(t) == len && !t->isStructTy() && !t->isArrayTy()))
+    {
+        if (src.empty())
+        {
+            if (t->isStructTy() || t->isArrayTy())
+                os << "    " << dst << " = (" << useTy(t) << "){0};\n";
+            else
+                os << "    " << dst << " = 0;\n";
+        }
+        else
+            os << "    " << dst << " = " << src << ";\n";
+        return true;
+    }
+    if (auto* st = dyn_cast<StructType>(t))
+    {
+        if (st->isOpaque())
+            return false;
+        const StructLayout* sl = DL->getStructLayout(st);
+        defineStruct(st);
+        for (unsigned i = 0; i < st->getNumElements(); ++i)
+        {
+            uint64_t off = sl->getElementOffset(i);
+            if (off >= len)
+                break;
+            Type* et = st->getElementType(i);
+            uint64_t sz = DL->getTypeAllocSize(et);
+            uint64_t take = (off + sz <= len) ? sz : len - off;
+            // a member that is fully covered but followed by padding inside the range is fine (padding is ignored)
+            if (!emitPrefix(et, dst + ".f" + std::to_string(i), src.empty() ? "" : src + ".f" + std::to_string(i), take == sz ? DL->getTypeAllocSize(et) : take, os))
+                return false;
+        }
+        return true;
+    }
+    if (auto* at = dyn_cast<ArrayType>(t))
+    {
+        Type* et = at->getElementType();
+        uint64_t sz = DL->getTypeAllocSize(et);
+        if (sz == 0)
+            return false;
+        for (uint64_t i = 0; i * sz < len; ++i)
+        {
+            uint64_t take = ((i + 1) * sz <= len) ? sz : len - i * sz;
+            if (!emitPrefix(et, dst + ".e[" + std::to_string(i) + "]", src.empty() ? "" : src + ".e[" + std::to_string(i) + "]", take, os))
+                return false;
+        }
+        return true;
+    }
+    return false;
+}
+
+// pointee type of p with bitcasts stripped, if it is a sized struct/array at least `len` bytes long
+static Type* prefixPointee(const Value* p, const Value* len)
+{
+    auto* cl = dyn_cast<ConstantInt>(len);
+    if (!cl)
+        return nullptr;
+    auto* pt = dyn_cast<PointerType>(p->stripPointerCasts()->getType());
+    if (!pt)
+        return nullptr;
+    Type* et = pt->getNonOpaquePointerElementType();
+    if (!(et->isStructTy() || et->isArrayTy()) || !et->isSized())
+        return nullptr;
+    if (auto* st = dyn_cast<StructType>(et))
+        if (st->isOpaque())
+            return nullptr;
+    if (DL->getTypeAllocSize(et) < cl->getZExtValue())
+        return nullptr;
+    return et;
+}
+
 static std::string widen(Type* t, const std::string& e, bool sgn)
 {
     unsigned w = t->getIntegerBitWidth();
@@ -950,14 +1050,63 @@ static void emitFunction(const Function& F, std::ostream& out)
                     switch (callee->getIntrinsicID())
                     {
                         case Intrinsic::memcpy:
+                        {
+                            // whole-object copy of a typed object: emit a struct assignment (keeps CBMC's field sensitivity)
+                            Type* td = typedPointee(call->getArgOperand(0), call->getArgOperand(2));
+                            Type* ts = typedPointee(call->getArgOperand(1), call->getArgOperand(2));
+                            if (typedMem && td && td == ts)
+                            {
+                                std::string tn = useTy(td);
+                                os << "    *(" << tn << "*)" << valueName(call->getArgOperand(0)->stripPointerCasts(), fc) << " = *(" << tn << "*)"
+                                   << valueName(call->getArgOperand(1)->stripPointerCasts(), fc) << ";\n";
+                                break;
+                            }
+                            td = prefixPointee(call->getArgOperand(0), call->getArgOperand(2));
+                            ts = prefixPointee(call->getArgOperand(1), call->getArgOperand(2));
+                            if (typedMem && td && td == ts)
+                            {
+                                std::ostringstream tmp;
+                                std::string tn = useTy(td);
+                                if (emitPrefix(td, "(*(" + tn + "*)" + valueName(call->getArgOperand(0)->stripPointerCasts(), fc) + ")",
+                                               "(*(" + tn + "*)" + valueName(call->getArgOperand(1)->stripPointerCasts(), fc) + ")",
+                                               cast<ConstantInt>(call->getArgOperand(2))->getZExtValue(), tmp))
+                                {
+                                    os << tmp.str();
+                                    break;
+                                }
+                            }
                             os << "    vp_memcpy((void*)" << arg(0) << ", (const void*)" << arg(1) << ", " << arg(2) << ");\n";
                             break;
+                        }
                         case Intrinsic::memmove:
                             os << "    vp_memmove((void*)" << arg(0) << ", (const void*)" << arg(1) << ", " << arg(2) << ");\n";
                             break;
                         case Intrinsic::memset:
+                        {
+                            // zero-fill of a whole typed object: emit a typed zero assignment
+                            Type* td = typedPointee(call->getArgOperand(0), call->getArgOperand(2));
+                            auto* cv = dyn_cast<ConstantInt>(call->getArgOperand(1));
+                            if (typedMem && td && cv && cv->isZero())
+                            {
+                                std::string tn = useTy(td);
+                                os << "    *(" << tn << "*)" << valueName(call->getArgOperand(0)->stripPointerCasts(), fc) << " = (" << tn << "){0};\n";
+                                break;
+                            }
+                            td = prefixPointee(call->getArgOperand(0), call->getArgOperand(2));
+                            if (typedMem && td && cv && cv->isZero())
+                            {
+                                std::ostringstream tmp;
+                                std::string tn = useTy(td);
+                                if (emitPrefix(td, "(*(" + tn + "*)" + valueName(call->getArgOperand(0)->stripPointerCasts(), fc) + ")", "",
+                                               cast<ConstantInt>(call->getArgOperand(2))->getZExtValue(), tmp))
+                                {
+                                    os << tmp.str();
+                                    break;
+                                }
+                            }
                             os << "    vp_memset((void*)" << arg(0) << ", " << arg(1) << ", " << arg(2) << ");\n";
                             break;
+                        }
                         case Intrinsic::bswap:
                         {
                             unsigned w = t->getIntegerBitWidth();
@@ -1111,6 +1260,33 @@ static void emitFunction(const Function& F, std::ostream& out)
                     {
                         fprintf(stderr, "ll2c: call through bitcast with incompatible return type in %s\n", F.getName().str().c_str());
                         exit(2);
+                    }
+                }
+                // Typed allocation: operator new whose result is used as T* is emitted as new(sizeof(T) * (n / sizeof(T))), so
+                // that CBMC's allocation model creates an object of type T[] (struct-typed, pointer members stay pointer
+                // symbols and are constant-propagated) instead of an untyped byte array.
+                if (typedNew && (name == "_Znwm" || name == "_Znam") && call->arg_size() == 1)
+                {
+                    Type* elem = nullptr;
+                    for (const User* u : call->users())
+                        if (auto* bc = dyn_cast<BitCastInst>(u))
+                            if (auto* pt = dyn_cast<PointerType>(bc->getType()))
+                            {
+                                Type* et = pt->getNonOpaquePointerElementType();
+                                if (et->isStructTy() && et->isSized() && !cast<StructType>(et)->isOpaque())
+                                {
+                                    elem = et;
+                                    break;
+                                }
+                            }
+                    if (elem)
+                    {
+                        std::string tn = useTy(elem);
+                        // the byte count is a multiple of sizeof(T) by construction (allocator<T>::allocate, new T); asserted
+                        os << "    VP_ASSERT((" << arg(0) << ") % sizeof(" << tn << ") == 0, \"ll2c: typed allocation size is a multiple of the element size\");\n";
+                        os << asg << fn << "(sizeof(" << tn << ") * ((" << arg(0) << ") / sizeof(" << tn << ")));\n";
+                        ++typedNewCount;
+                        continue;
                     }
                 }
                 os << asg << fn << "(";
@@ -1310,6 +1486,10 @@ int main(int argc, char** argv)
             checkOverflow = true;
         else if (a == "--ovf-prefix" && i + 1 < argc)
             ovfPrefix = argv[++i];
+        else if (a == "--untyped-new")
+            typedNew = false;
+        else if (a == "--untyped-mem")
+            typedMem = false;
         else if (a == "--static-writes")
             checkStaticWrites = true;
         else
